@@ -67,6 +67,16 @@ func propTable() map[string]*PropSpec {
 			th[i].RequireReach = []string{"C06.total_gt_2^53", "C06.two_quorums"}
 			th[i].AssertTimeout = 300
 		}
+		for _, n := range []int{65, 70, 130} {
+			c := rc(fmt.Sprintf("C06_Large/n=%d,m=3", n), "services/quorum", "C06_Large", map[string]int{"n": n, "m": 3}) // no symbolic division: plain z3
+			c.MaxLoop = 300
+			c.MaxWallS = 600
+			c.RequireReach = []string{"C06.large.two_members"}
+			th = append(th, c)
+			if n == 70 {
+				q = append(q, c)
+			}
+		}
 		for _, il := range []int{1, 3, 20, 21} {
 			c := arith(rc(fmt.Sprintf("C06_IdShapes/idlen=%d,m=3", il), "services/quorum", "C06_IdShapes", map[string]int{"idlen": il, "m": 3}))
 			c.RequireReach = []string{"C06.shapes.quorum"}
@@ -78,7 +88,7 @@ func propTable() map[string]*PropSpec {
 		t["C06"] = &PropSpec{ID: "C06", Quick: q, Thorough: th,
 			Assumptions: []string{"total committee weight fits in 64 bits and is positive (the property's precondition)", "committee ids are the distinct one-byte ids 1..n; list entries are arbitrary one-byte ids (duplicates, outsiders), plus fixed empty/two-byte/nil ids"},
 			Bounds:      []string{"n=4, lists of 5 ids (quick); n=4..7, lists of n+2 ids (thorough); weights fully symbolic 64-bit", "id shapes: committee of 4 whose ids have length 1 / 21 (quick) or 1, 3, 20, 21 (thorough) and share all but their last byte; lists of 3 entries of length L-1, L or L+1 with symbolic tail bytes"},
-			Outside:     []string{"committees larger than 7 members; id lists longer than n+2; ids longer than one byte other than the fixed samples"},
+			Outside:     []string{"committees larger than 7 members with fully symbolic weights (large committees: 65, 70, 130 members with unit weights; lists of 3 copies of one symbolic id plus another symbolic id); id lists longer than n+2"},
 		}
 	}
 
